@@ -2,7 +2,7 @@
 state in worker processes, replays every solver model against the gcc-built parser and the concrete abstract machine."""
 import os, sys, time, json, hashlib, multiprocessing as mp, traceback
 import z3
-from . import chk, nm, l3 as l3mod, absm, stepcmp, replay
+from . import chk, nm, l3 as l3mod, absm, stepcmp, replay, multicall
 
 CONFIGS_QUICK = [
     ('default', ()),
@@ -38,7 +38,7 @@ def jobs_for(tier, aspects, only_eof=False):
             if only_eof and '-feof-support' not in flags and '-feof-support' not in nm.split_args(src):
                 continue
             js.append({'label': label, 'src': src, 'cname': cname, 'flags': flags, 'aspects': aspects, 'tier': tier,
-                       'state_budget': 48 if tier == 'quick' else None})
+                       'state_budget': (48, 16) if tier == 'quick' else None})
     # big programs last would straggle: sort by size descending so they start first
     js.sort(key=lambda j: -len(j['src']))
     return js
@@ -74,6 +74,8 @@ def work(job):
         finds = []
         sel = list(range(n))
         budget = job.get('state_budget')
+        if isinstance(budget, tuple):
+            budget = budget[0] if n <= 130 else budget[1]
         if budget and n > budget:
             import random
             rnd = random.Random(chk.seed() * 7919 + len(job['src']))
@@ -85,6 +87,12 @@ def work(job):
                     finds += stepcmp.step_state(L, m, sidx, False, alloc, st, want=want)
                 if 'end' in aspects and L.eof:
                     finds += stepcmp.step_state(L, m, sidx, True, alloc, st, want=want)
+                if 'c02' in aspects:
+                    for f in multicall.c02_state(L, sidx, alloc, job.get('L', 2), st):
+                        f['sym'] = 'chunk'; finds.append(f)
+                if 'c10' in aspects:
+                    for f in multicall.c10_state(L, m, sidx, alloc, job.get('L', 2), st):
+                        f['sym'] = 'chunk'; finds.append(f)
         extra = job.get('extra')
         if extra:
             finds += extra(L, m, comp, st)
@@ -111,6 +119,44 @@ def work(job):
 
 def replay_finding(comp, L, m, f):
     """replays a one-step model on the gcc build (state forced: the model's pre-state) and on the concrete abstract machine"""
+    if f['kind'] == 'c02-diff':
+        bs = f['bytes']
+        parts = f['parts']
+        c1, d1 = replay.run_c(comp, L.layout, {'pre': f['pre'], 'calls': [('feed', bs)]})
+        c2, d2 = replay.run_c(comp, L.layout, {'pre': f['pre'], 'calls': [('feed', bs[a:b]) for a, b in parts]})
+        if c1 is None or c2 is None:
+            return {'reproduced': None, 'note': 'replay build failed: ' + (d1 or d2)[:200]}
+        t1 = replay.observable_trace(c1, [0]); t2 = replay.observable_trace(c2, [a for a, b in parts])
+        diff = replay.traces_differ(t1, t2)
+        if diff is None and t1 and t1[-1][0] == 'RET' and t1[-1][1] == 'OK':
+            s1 = [e for e in c1 if e[0] == 'STATE']; s2 = [e for e in c2 if e[0] == 'STATE']
+            if s1 and s2 and s1[0][1] != s2[0][1]:
+                diff = f'control state after the chunk: whole {s1[0][1]} vs split {s2[0][1]}'
+        return {'reproduced': diff is not None, 'diff': diff, 'whole': t1[-2:], 'split': t2[-2:]}
+    if f['kind'] in ('c10-diff', 'c10-ok', 'c10-fail'):
+        bs = f['bytes']
+        calls = [('feed', bs)]
+        if f['kind'] == 'c10-fail':
+            calls.append(('end',) if f.get('next_call') == 'end' else ('feed', [f.get('next_byte', 0)]))
+        sc = {'pre': f['pre'], 'calls': calls}
+        clog, diag = replay.run_c(comp, L.layout, sc)
+        if clog is None:
+            return {'reproduced': None, 'note': 'replay build failed: ' + diag[:200]}
+        if f['kind'] == 'c10-fail':
+            rets = [e for e in clog if e[0] == 'RET']
+            bad = len(rets) >= 2 and rets[-2][1] == 'FAIL' and rets[-1][1] != 'FAIL'
+            return {'reproduced': bool(bad) or None, 'clog': rets[-2:], 'note': 'state/outputs change after FAIL is checked symbolically only' if not bad else ''}
+        if f['kind'] == 'c10-ok':
+            rets = [e for e in clog if e[0] == 'RET']
+            bad = rets and rets[-1][1] == 'OK' and rets[-1][2] not in (-1, len(bs))
+            return {'reproduced': bool(bad), 'clog': rets[-1:]}
+        try:
+            alog, ast = replay.run_absm(m, comp, sc)
+        except Exception as e:
+            return {'reproduced': None, 'note': 'abstract replay failed: ' + repr(e)[:200]}
+        t1 = replay.observable_trace(clog, [0]); t2 = replay.observable_trace(alog, [0])
+        diff = replay.traces_differ(t1, t2)
+        return {'reproduced': diff is not None, 'diff': diff, 'c': t1[-2:], 'abstract': t2[-2:]}
     calls = [('end',)] if f['sym'] == 'end' else [('feed', [f['byte']])]
     sc = {'pre': f['pre'], 'calls': calls}
     if f['kind'] in ('c03-mem', 'c03-inv'):
